@@ -27,6 +27,9 @@ checks = {
  'C09': dict(level='exploration', tech='runtime monitoring: algebraic-law and metamorphic (enumeration-order) oracle over direct calls of the production SetResourcesShare',
    text='Held on N generated sibling sets and 2-3 level trees (totals incl. 0/fractional, quota incl. unlimited, limits, weights incl. 0, 1-3 priorities, usage, k in {0,0.5,1,10}): laws L1-L8 of the statement (floor, cap, surplus bound, surplus only left when satisfied, priority remainder, weight monotonicity, children within parent, order independence over 5 insertion orders).',
    note='One rounding unit = 1.0 of the raw quantity; L4/L5 effective weight as computed by the code\'s last round. Known finding (open): L5 cliff for k>0.', ref='4/C09'),
+ 'C10': dict(level='exploration', tech='runtime monitoring: crash / hang oracle (in-process recover, worker-process exit, per-case watchdog with goroutine-dump triage) plus control-workload oracle over real scheduler cycles on mutated (malformed) API objects',
+   text='Held on N generated clusters each carrying 1-5 of 28 malformed-object mutations (queue self-parent / 2- and 3-cycles / missing parents / nil resources / absurd quotas, invalid sub-group graphs, non-positive or huge minimums, pods without containers or pod group, garbage / NaN / Inf / overflow GPU annotations, label-less or zero / negative / empty-capacity nodes, dangling BindRequests, level-less topologies, missing priority classes) plus every 8th case unmutated: two full cycles terminate without panic and a healthy control workload (own queue, own node) is bound.',
+   note='Watchdog 20 s per case (~150x a normal cycle); a watchdog without a goroutine inside KAI code is inconclusive. Three genuine defects found and repaired (queue-cycle hang, nil parent queue panic, level-less topology panic).', ref='4/C10'),
  'C13': dict(level='exploration', tech='runtime monitoring: statement lifecycle hooks (build tag verif) + canonical session dump compared after Discard/Rollback; Cache calls of Commit compared with the net effect of the valid operations',
    text='Held (up to the listed known findings) on every statement the real allocate/consolidation/reclaim/preempt actions and their solvers create in N generated multi-cycle cases: dump before the first operation / at each checkpoint equals the dump after Discard / Rollback; each Commit emits at most one eviction and one placement per pod and nothing for undone steps.',
    note='A discard/rollback is judged only when no other statement acted in between. Known findings (open): whole-GPU counters / markers of shared-GPU nodes and statements that re-nominate an evicted shared-GPU pod are not restored exactly.', ref='4/C13'),
